@@ -45,7 +45,7 @@ fn rand_op(rng: &mut Rng) -> Sx {
     }
 }
 
-pub fn gen(tier: &str, rng: &mut Rng, emit: &mut dyn FnMut(u64, Sx)) {
+pub fn gen(tier: &str, rng: &mut Rng, emit: &mut crate::Emit) {
     // exhaustive: every state s (reached by add s) x every byte b, for add / sub and their inverses
     for s in 0..256u64 {
         let mut ops = vec![l(vec![a(0), a(s)])];
@@ -57,11 +57,11 @@ pub fn gen(tier: &str, rng: &mut Rng, emit: &mut dyn FnMut(u64, Sx)) {
             ops.push(l(vec![a(1), a(b)]));
             ops.push(l(vec![a(0), a(b)]));
         }
-        emit(1, l(ops));
+        emit.case(1, l(ops));
     }
     let n = if tier == "thorough" { 60_000 } else { 5_000 };
     for _ in 0..n {
         let len = rng.range(1, 40);
-        emit(1, l((0..len).map(|_| rand_op(rng)).collect()));
+        emit.case(1, l((0..len).map(|_| rand_op(rng)).collect()));
     }
 }
